@@ -18,6 +18,19 @@ package c04
 //         | '$' src inst '[' seq ']'            native transfer of 1 token to <inst> with data = seq (executed by onNEP17Payment)
 //                                               src: g = GAS from the current contract, s = GAS from the sender, n = NEO from the sender
 //         | 'T{' seq '}{' seq '}'               TRY body handler (handler runs after the TRY block ended)
+//
+// Hand-assembled entry scripts (hasm_test.go): the transaction script itself
+// carries the exception handlers, so that calls are made from inside TRY, CATCH
+// and FINALLY parts of nested handlers of ONE context:
+//   prog := 'H[' seq ']'                      entry script with call flags All
+//   op   := inst flag '[' seq ']' | '$' ('s'|'n') inst '[' seq ']' | 'F' | 'K' | 'U' | 'Y' | '!' | '#'   as above, executed by the entry script
+//         | '{' seq '|' seq '}'                 TRY body CATCH catch
+//         | '{' seq '||' seq '}'                TRY body FINALLY fin
+//         | '{' seq '|' seq '|' seq '}'         TRY body CATCH catch FINALLY fin
+//         | '(' seq ')'                         CALL of a subroutine of the same script (its own frame, same script context)
+// Ops of instance C only (it is deployed from the extended source v.go.txt):
+//         | 'I[' seq ']'                        open a Storage.Find iterator over the own storage, run seq, then consume the iterator
+//         | 'Z'                                 ContractManagement.destroy() of the executing instance
 
 import (
 	"fmt"
@@ -31,8 +44,11 @@ type Op struct {
 	To    int  // r,$: callee instance 0..2
 	Flags int  // r
 	Src   byte // $: g s n
-	Body  []Op // r,$: sub program; T: try body
-	H     []Op // T: handler
+	Body  []Op // r,$: sub program; T: try body; h: try part; (: subroutine; S: the hand-assembled script
+	H     []Op // T: handler; h: catch part
+	Fin   []Op // h: finally part
+	HasC  bool // h: has a catch part
+	HasF  bool // h: has a finally part
 }
 
 const instNames = "ABC"
@@ -54,6 +70,22 @@ func renderSeq(sb *strings.Builder, ops []Op) {
 			sb.WriteString("}{")
 			renderSeq(sb, o.H)
 			sb.WriteByte('}')
+		case 'h':
+			sb.WriteByte('{')
+			renderSeq(sb, o.Body)
+			sb.WriteByte('|')
+			if o.HasC {
+				renderSeq(sb, o.H)
+			}
+			if o.HasF {
+				sb.WriteByte('|')
+				renderSeq(sb, o.Fin)
+			}
+			sb.WriteByte('}')
+		case '(':
+			sb.WriteByte('(')
+			renderSeq(sb, o.Body)
+			sb.WriteByte(')')
 		default:
 			sb.WriteByte(o.K)
 		}
@@ -62,6 +94,12 @@ func renderSeq(sb *strings.Builder, ops []Op) {
 
 func render(ops []Op) string {
 	var sb strings.Builder
+	if isHand(ops) {
+		sb.WriteString("H[")
+		renderSeq(&sb, ops[0].Body)
+		sb.WriteByte(']')
+		return sb.String()
+	}
 	sb.WriteString("A[")
 	renderSeq(&sb, ops)
 	sb.WriteByte(']')
@@ -74,84 +112,138 @@ type parser struct {
 	id  int
 }
 
+// seq parses ops up to the closing character end.
 func (p *parser) seq(end byte) ([]Op, error) {
+	ops, _, err := p.seqAny(string(end))
+	return ops, err
+}
+
+// seqAny parses ops up to one of the characters of ends and returns which one it was.
+func (p *parser) seqAny(ends string) ([]Op, byte, error) {
 	var out []Op
 	for {
 		if p.pos >= len(p.s) {
-			return nil, fmt.Errorf("unexpected end in %q", p.s)
+			return nil, 0, fmt.Errorf("unexpected end in %q", p.s)
 		}
 		c := p.s[p.pos]
-		if c == end {
+		if strings.IndexByte(ends, c) >= 0 {
 			p.pos++
-			return out, nil
+			return out, c, nil
 		}
 		p.pos++
 		p.id++
 		o := Op{ID: p.id}
 		switch c {
-		case 'E', 'N', 'P', 'D', 'X', 'F', 'K', 'U', 'Y', '!', '#', '~':
+		case 'E', 'N', 'P', 'D', 'X', 'F', 'K', 'U', 'Y', 'Z', '!', '#', '~':
 			o.K = c
 		case 'A', 'B', 'C':
 			o.K = 'r'
 			o.To = strings.IndexByte(instNames, c)
 			if p.pos+1 >= len(p.s) || p.s[p.pos+1] != '[' {
-				return nil, fmt.Errorf("bad run at %d in %q", p.pos, p.s)
+				return nil, 0, fmt.Errorf("bad run at %d in %q", p.pos, p.s)
 			}
 			if _, err := fmt.Sscanf(p.s[p.pos:p.pos+1], "%x", &o.Flags); err != nil {
-				return nil, err
+				return nil, 0, err
 			}
 			p.pos += 2
 			b, err := p.seq(']')
 			if err != nil {
-				return nil, err
+				return nil, 0, err
 			}
 			o.Body = b
 		case '$':
 			if p.pos+2 >= len(p.s) || p.s[p.pos+2] != '[' {
-				return nil, fmt.Errorf("bad pay at %d in %q", p.pos, p.s)
+				return nil, 0, fmt.Errorf("bad pay at %d in %q", p.pos, p.s)
 			}
 			o.K = '$'
 			o.Src = p.s[p.pos]
 			o.To = strings.IndexByte(instNames, p.s[p.pos+1])
 			if o.To < 0 || strings.IndexByte("gsn", o.Src) < 0 {
-				return nil, fmt.Errorf("bad pay at %d in %q", p.pos, p.s)
+				return nil, 0, fmt.Errorf("bad pay at %d in %q", p.pos, p.s)
 			}
 			p.pos += 3
 			b, err := p.seq(']')
 			if err != nil {
-				return nil, err
+				return nil, 0, err
 			}
 			o.Body = b
 		case 'T':
 			if p.pos >= len(p.s) || p.s[p.pos] != '{' {
-				return nil, fmt.Errorf("bad try at %d in %q", p.pos, p.s)
+				return nil, 0, fmt.Errorf("bad try at %d in %q", p.pos, p.s)
 			}
 			p.pos++
 			o.K = 'T'
 			b, err := p.seq('}')
 			if err != nil {
-				return nil, err
+				return nil, 0, err
 			}
 			if p.pos >= len(p.s) || p.s[p.pos] != '{' {
-				return nil, fmt.Errorf("bad try handler at %d in %q", p.pos, p.s)
+				return nil, 0, fmt.Errorf("bad try handler at %d in %q", p.pos, p.s)
 			}
 			p.pos++
 			h, err := p.seq('}')
 			if err != nil {
-				return nil, err
+				return nil, 0, err
 			}
 			o.Body, o.H = b, h
+		case 'I':
+			if p.pos >= len(p.s) || p.s[p.pos] != '[' {
+				return nil, 0, fmt.Errorf("bad iterator op at %d in %q", p.pos, p.s)
+			}
+			p.pos++
+			o.K = 'I'
+			b, err := p.seq(']')
+			if err != nil {
+				return nil, 0, err
+			}
+			o.Body = b
+		case '(':
+			o.K = '('
+			b, err := p.seq(')')
+			if err != nil {
+				return nil, 0, err
+			}
+			o.Body = b
+		case '{': // {try|catch}  {try||finally}  {try|catch|finally}
+			o.K = 'h'
+			b, _, err := p.seqAny("|")
+			if err != nil {
+				return nil, 0, err
+			}
+			o.Body = b
+			if p.pos < len(p.s) && p.s[p.pos] == '|' { // no catch part
+				p.pos++
+				o.HasF = true
+				if o.Fin, err = p.seq('}'); err != nil {
+					return nil, 0, err
+				}
+				break
+			}
+			o.HasC = true
+			h, e, err := p.seqAny("|}")
+			if err != nil {
+				return nil, 0, err
+			}
+			o.H = h
+			if e == '|' {
+				o.HasF = true
+				if o.Fin, err = p.seq('}'); err != nil {
+					return nil, 0, err
+				}
+			}
 		default:
-			return nil, fmt.Errorf("bad char %q at %d in %q", c, p.pos-1, p.s)
+			return nil, 0, fmt.Errorf("bad char %q at %d in %q", c, p.pos-1, p.s)
 		}
 		out = append(out, o)
 	}
 }
 
-// parseProg parses the rendering; ids are assigned in pre-order.
+// parseProg parses the rendering; ids are assigned in pre-order. A
+// hand-assembled script H[seq] is returned as the single pseudo-op 'S'.
 func parseProg(s string) ([]Op, error) {
-	if !strings.HasPrefix(s, "A[") {
-		return nil, fmt.Errorf("program must start with A[: %q", s)
+	hand := strings.HasPrefix(s, "H[")
+	if !hand && !strings.HasPrefix(s, "A[") {
+		return nil, fmt.Errorf("program must start with A[ or H[: %q", s)
 	}
 	p := &parser{s: s, pos: 2}
 	ops, err := p.seq(']')
@@ -161,8 +253,14 @@ func parseProg(s string) ([]Op, error) {
 	if p.pos != len(s) {
 		return nil, fmt.Errorf("trailing input in %q", s)
 	}
+	if hand {
+		return []Op{{K: 'S', Body: ops}}, nil
+	}
 	return ops, nil
 }
+
+// isHand: the program is a hand-assembled entry script.
+func isHand(ops []Op) bool { return len(ops) == 1 && ops[0].K == 'S' }
 
 func mustParse(s string) []Op {
 	ops, err := parseProg(s)
@@ -174,7 +272,7 @@ func mustParse(s string) []Op {
 
 func hasOp(ops []Op, k byte) bool {
 	for _, o := range ops {
-		if o.K == k || hasOp(o.Body, k) || hasOp(o.H, k) {
+		if o.K == k || hasOp(o.Body, k) || hasOp(o.H, k) || hasOp(o.Fin, k) {
 			return true
 		}
 	}
@@ -195,7 +293,7 @@ func needsCommittee(ops []Op) bool { return hasAny(ops, "FKU") }
 
 func hasNeo(ops []Op) bool {
 	for _, o := range ops {
-		if (o.K == '$' && o.Src == 'n') || hasNeo(o.Body) || hasNeo(o.H) {
+		if (o.K == '$' && o.Src == 'n') || hasNeo(o.Body) || hasNeo(o.H) || hasNeo(o.Fin) {
 			return true
 		}
 	}
@@ -207,11 +305,12 @@ func countOps(ops []Op) (n, levels int) {
 		n++
 		a, l := countOps(o.Body)
 		b, l2 := countOps(o.H)
-		n += a + b
+		c, l3 := countOps(o.Fin)
+		n += a + b + c
 		if o.K == 'r' || o.K == '$' {
 			l++
 		}
-		levels = max(levels, l, l2)
+		levels = max(levels, l, l2, l3)
 	}
 	return
 }
